@@ -8,9 +8,9 @@ import OV.Drivers.Loop
     `C13 table <r><u><i><s> <name>*`   → renamed names (`renameTable`), `,`-joined
     `C13 export <r><u><i><s> <depth> M <gname> <fname|-> <nops> (<dom> <ver>)* GRAPH`
     `C13 export <opts> <depth> F <name> <domain> <nin> in* <nout> out* <nattr> a* <nused> u* <nops> (<dom> <ver>)* <nnodes> NODE*`
-      GRAPH := <nin> in* <nout> out* <ninit> (<name> <size> <dtype> <rank> dim* <lit>)* <nsparse> <nnodes> NODE*
+      GRAPH := <nin> in* <nout> out* <ninit> (<name> <size> <dtype> <rank> dim* <finite> <lit>)* <nsparse> <nnodes> NODE*
       NODE  := <op> <domain> <name> <nin> in* <nout> out* <nattr> ATTR*
-      ATTR  := <name> P | <name> T <dtype> <rank> dim* <lit> | <name> R <ref> | <name> G GRAPH | <name> U
+      ATTR  := <name> P | <name> T <dtype> <rank> dim* <finite> <lit> | <name> R <ref> | <name> G GRAPH | <name> U
     → program lines joined by ` ; `, or `ERR:<python exception class>` -/
 namespace OV.Drivers.C13
 open OV.C13
@@ -57,13 +57,14 @@ def pList {α} (p : P α) : P (List α) := fun ts => do
   let (n, ts) ← pNat ts
   pRepeat p n ts
 
-def pInit : P (String × Nat × Nat × List Nat × String) := fun ts => do
+def pInit : P (String × Nat × Nat × List Nat × Bool × String) := fun ts => do
   let (name, ts) ← pStr ts
   let (size, ts) ← pNat ts
   let (dtype, ts) ← pNat ts
   let (dims, ts) ← pList pNat ts
+  let (fin, ts) ← pNat ts
   let (lit, ts) ← pStr ts
-  pure ((name, size, dtype, dims, lit), ts)
+  pure ((name, size, dtype, dims, fin != 0, lit), ts)
 
 mutual
 def pGraph : Nat → P Graph
@@ -98,8 +99,9 @@ def pAttr : Nat → P (String × Attr)
     | "T" :: ts => do
       let (dtype, ts) ← pNat ts
       let (dims, ts) ← pList pNat ts
+      let (fin, ts) ← pNat ts
       let (lit, ts) ← pStr ts
-      pure ((name, .tensor dtype dims lit), ts)
+      pure ((name, .tensor dtype dims (fin != 0) lit), ts)
     | "G" :: ts => do
       let (g, ts) ← pGraph f ts
       pure ((name, .graph g), ts)
